@@ -55,6 +55,12 @@ type Conn struct {
 	Variant string `json:"variant,omitempty"` // C19: how this variant differs (informational)
 	// Lock-step shadows to run next to the receiver (DESIGN.md 6.6).
 	ShadowAmple bool `json:"shadow_ample,omitempty"` // C13
+	// Poke: before a used object is reset / initialised again, user code registers a first-of-type
+	// header itself through the exported HdrLst.SetHdr (kind = 1 + Poke%13); 0 = no.
+	Poke int `json:"poke,omitempty"`
+	// EarlyEOF: the call with this number (1-based, per unit) passes the end-of-input flag although
+	// the stream goes on afterwards (a receiver that guessed wrong); 0 = never.
+	EarlyEOF int `json:"early_eof,omitempty"`
 }
 
 type Scenario struct {
@@ -69,6 +75,9 @@ type Scenario struct {
 	// C04 isolation: task interleaving decisions (see tasks.go).
 	Tasks []TaskSpec `json:"tasks,omitempty"`
 	Sched []int      `json:"sched,omitempty"`
+	// SharePool: the receiver's pooled objects draw their caller arrays from one common pool: what
+	// the init operation of one object detaches may be attached to another object next.
+	SharePool bool `json:"share_pool,omitempty"`
 }
 
 // Stream renders the bytes conn c's peer sends.
